@@ -52,6 +52,12 @@ pub fn frontend_in_state(st: &FeState) -> (Frontend, UnixStream) {
     if st.acked_vf != 0 {
         f.set_features(st.acked_vf).unwrap();
     }
+    if st.offered_vf & spec::VIRTIO_F_PROTOCOL_FEATURES != 0 {
+        // as every real front end does: ask first.  The back end offers everything, so "offered" and
+        // "acknowledged" differ whenever the state acknowledges a subset.
+        rawpeer::send_all(s, &spec::reply(fe::GET_PROTOCOL_FEATURES, &spec::b_u64(0x3f_ffff)), &[]).unwrap();
+        f.get_protocol_features().unwrap();
+    }
     if st.acked_pf != 0 {
         f.set_protocol_features(VhostUserProtocolFeatures::from_bits_truncate(st.acked_pf)).unwrap();
     }
